@@ -11,8 +11,8 @@
    are checked on the implementation only (partial, see checks/c09.py). *)
 From Coq Require Import String Permutation.
 From Martian Require Import Lib.Bytes Lib.Utf8 Mro.Ast
-  K.ParseNum K.Unquote K.Lexer K.FormatExp K.FormatGB K.TopoSort K.Same
-  Proofs.FormatExp Proofs.FormatGB Proofs.TopoSort Proofs.Same.
+  K.ParseNum K.Unquote K.Lexer K.FormatExp K.FormatGB K.TopoSort K.Same K.ExpComments
+  Proofs.FormatExp Proofs.FormatGB Proofs.TopoSort Proofs.Same Proofs.ExpComments.
 
 (* quoteString: for every valid UTF-8 string, of any length, the text written
    is exactly one string token (whatever follows it) and unquoting that token
@@ -103,6 +103,24 @@ Theorem C09_literal_values_exact :
 Proof. exact (conj canon_int_float (conj canon_float_float canon_string)). Qed.
 Print Assumptions C09_literal_values_exact.
 
+(* comments inside collection literals: for every literal, of any nesting, the
+   model of ArrayExp.formatNested / MapExp.format prints each comment attached
+   to an element or entry exactly once, in order - including the elements of
+   single-element arrays nested in single-element arrays, which are written on
+   one line only when the element carries no comment.  (Which node a comment
+   is attached to - lexer.go attachComments - is not modelled; the
+   correspondence uses layouts where it is the element that follows.) *)
+Theorem C09_literal_comments_exactly_once : forall e, fmt false e = inorder e.
+Proof. exact fmt_inorder_lemma. Qed.
+Print Assumptions C09_literal_comments_exactly_once.
+
+(* the test is needed at every level: a printer that skips it once its caller
+   has said single line loses the comment before the 7 of [[7]] *)
+Theorem C09_literal_comments_slip_refuted :
+  exists e, fmt_slip false e <> inorder e /\ inorder e = [5%N].
+Proof. exact fmt_slip_refuted_lemma. Qed.
+Print Assumptions C09_literal_comments_slip_refuted.
+
 (* ---------------------------------------------------------------- non-vacuity *)
 Open Scope string_scope.
 
@@ -153,3 +171,11 @@ Example C09_ast_same_nonvacuous :
   ast_same (ex_pipe [ex_call "A" (EInt 1); ex_call "B" (ERef RefCall (bs "A") (bs "y"))])
            (ex_pipe [ex_call "B" (ERef RefCall (bs "A") (bs "y")); ex_call "A" (EInt 1)]) = false.
 Proof. vm_compute. repeat split; reflexivity. Qed.
+
+(* [[# c5 / 7]] inside a map entry with its own comment, next to a two-element
+   array: all four comments come out once, in order *)
+Example C09_literal_comments_nonvacuous :
+  let e := CMap [([1%N], CArr [([], CArr [([5%N], CLeaf)])]);
+                 ([], CArr [([7%N], CLeaf); ([8%N], CArr [])])] in
+  fmt false e = [1; 5; 7; 8]%N /\ slf (CArr [([], CArr [([5%N], CLeaf)])]) = true.
+Proof. vm_compute. split; reflexivity. Qed.
